@@ -32,20 +32,49 @@ coolant holds on entry (`T0`).  The loop is written with a `fuel` argument only 
 recursion structural; `Crem/Proofs/Anneal.lean` shows the fuel given by `anneal` is never
 exhausted.  The temperature is updated by the same sequential multiplications as the Go code
 (`[Mul α]`: `Float` in the driver, any monoid / ordered semiring in the theorems).
+
+Panics.  One panic may be injected per `Anneal()` call, at any of the places where foreign code
+runs (`PanicSite`): the explorer's `Initialise`, `TryRandomChange`, `CoolDown` (before or after
+the coolant has multiplied the temperature: `kirkpatrick.Explorer.CoolDown` cools first and then
+notifies its own observers, so a panic out of that notification leaves the temperature cooled),
+`TearDown`, the explorer's `EventAttributes(FinishedAnnealing)` (it compresses the model /
+copies the archive: `fetchFinalCompressedModel`), and the `ObserveEvent` callback of observer
+`j` at each of the four notify points.  `NotifyObserversOfEvent` is a plain loop over the
+observers, so a panic in observer `j` means observers `0 … j` were handed the event (`j`
+itself was called and did not return) and observers `j+1 …` never see it; in the event list
+this is the marker `observerPanic j` right after the event.
 Core Lean only.
 -/
 namespace Crem.Anneal
+
+/-- the four places where `Anneal()` notifies the observers; `k` counts iterations of this
+`Anneal()` call from 1 -/
+inductive NotifyPoint where
+  | startedAnnealing
+  | startedIteration (k : Nat)
+  | finishedIteration (k : Nat)
+  | finishedAnnealing
+  deriving DecidableEq, Repr
 
 /-- where a panic is injected; `k` counts iterations of this `Anneal()` call from 1 -/
 inductive PanicSite where
   | initialise
   | tryRandomChange (k : Nat)
+  /-- `CoolDown` panics before the temperature is multiplied -/
   | coolDown (k : Nat)
+  /-- `CoolDown` panics after the temperature was multiplied (Go: in `notifyCoolDown`) -/
+  | coolDownAfter (k : Nat)
+  /-- observer `j` (position in the notifier's list, from 0) panics in `ObserveEvent` -/
+  | notify (pt : NotifyPoint) (j : Nat)
+  /-- the explorer panics while the attributes of the finish event are put together -/
+  | finishAttributes
+  | tearDown
   deriving DecidableEq, Repr
 
 /-- what happens during `Anneal()`, in order.  `startedAnnealing` … `finishedAnnealing` are
 the events sent to the observers (with the attributes the property speaks about: iteration
-number and temperature); the others are calls on the explorer. -/
+number and temperature); `observerPanic j` marks that the delivery of the event just before it
+stopped in observer `j`; the others are calls on the explorer. -/
 inductive Event (α : Type) where
   | explorerInitialise
   | startedAnnealing (T : α)
@@ -55,6 +84,7 @@ inductive Event (α : Type) where
   | finishedIteration (k : Nat) (T : α)
   | finishedAnnealing (k : Nat) (T : α)
   | explorerTearDown
+  | observerPanic (j : Nat)
   deriving Repr, DecidableEq
 
 inductive Outcome where
@@ -76,8 +106,49 @@ structure Result (α : Type) where
   temperature : α
   deriving Repr
 
+/-- the observer that panics at notify point `pt`, if the injected panic is there -/
+def observerAt (p : Option PanicSite) (pt : NotifyPoint) : Option Nat :=
+  match p with
+  | some (.notify pt' j) => if pt' = pt then some j else none
+  | _ => none
+
+/-- A notify site names an observer that may not exist: with `n` observers attached, observer
+`j ≥ n` is never called, so such a site cannot fire. -/
+def effectiveSite (n : Nat) : Option PanicSite → Option PanicSite
+  | some (.notify pt j) => if j < n then some (.notify pt j) else none
+  | p => p
+
 section
 variable {α : Type} [Mul α]
+
+/-- One iteration of the loop body in which the injected panic fires: the events up to the
+panic and the temperature the coolant is left with.  `i` is the iteration of this call, `cur`
+the (already incremented) `currentIteration`, `T` the temperature on entry.  In program order:
+
+  iterationStarted()     observer `j` panics          s !j            T
+  TryRandomChange()      panics                       s t             T
+  CoolDown()             panics before cooling        s t c           T
+                         panics after cooling         s t c           T·a
+  iterationFinished()    observer `j` panics          s t c f !j      T·a
+
+`none`: the panic (if any) is not in this iteration. -/
+def iterationPanic (a : α) (p : Option PanicSite) (i cur : Nat) (T : α) :
+    Option (List (Event α) × α) :=
+  match p with
+  | some (.notify (.startedIteration k) j) =>
+    if k = i then some ([.startedIteration cur T, .observerPanic j], T) else none
+  | some (.tryRandomChange k) =>
+    if k = i then some ([.startedIteration cur T, .tryRandomChange], T) else none
+  | some (.coolDown k) =>
+    if k = i then some ([.startedIteration cur T, .tryRandomChange, .coolDown], T) else none
+  | some (.coolDownAfter k) =>
+    if k = i then some ([.startedIteration cur T, .tryRandomChange, .coolDown], T * a) else none
+  | some (.notify (.finishedIteration k) j) =>
+    if k = i then
+      some ([.startedIteration cur T, .tryRandomChange, .coolDown, .finishedIteration cur (T * a),
+             .observerPanic j], T * a)
+    else none
+  | _ => none
 
 /-- the `for` loop of `Anneal()`, entered with `done = false`; `i` iterations of this call
 have completed, `cur` is `currentIteration`, `T` the temperature -/
@@ -87,11 +158,9 @@ def loop (N : Nat) (a : α) (panicAt : Option PanicSite) :
   | fuel + 1, i, cur, T =>
     let i := i + 1
     let cur := cur + 1                                       -- iterationStarted
-    if panicAt = some (.tryRandomChange i) then
-      ([.startedIteration cur T, .tryRandomChange], .panicked cur T)
-    else if panicAt = some (.coolDown i) then
-      ([.startedIteration cur T, .tryRandomChange, .coolDown], .panicked cur T)
-    else
+    match iterationPanic a panicAt i cur T with
+    | some (evs, T') => (evs, .panicked cur T')
+    | none =>
       let T' := T * a                                        -- CoolDown
       let evs : List (Event α) :=
         [.startedIteration cur T, .tryRandomChange, .coolDown, .finishedIteration cur T']
@@ -100,24 +169,47 @@ def loop (N : Nat) (a : α) (panicAt : Option PanicSite) :
         let rest := loop N a panicAt fuel i cur T'
         (evs ++ rest.1, rest.2)
 
+/-- the end of a run whose loop is done: `annealingFinished()` (build the event, notify), then
+the deferred `TearDown()`, then `handlePanicRecovery`.  `pre` is everything that happened so far. -/
+def finish (panicAt : Option PanicSite) (pre : List (Event α)) (cur : Nat) (T : α) : Result α :=
+  if panicAt = some .finishAttributes then
+    -- no finish event exists; TearDown runs, the panic is re-raised
+    ⟨pre ++ [.explorerTearDown], .repanicked, cur, T⟩
+  else
+    match observerAt panicAt .finishedAnnealing with
+    | some j =>
+      ⟨pre ++ [.finishedAnnealing cur T, .observerPanic j, .explorerTearDown], .repanicked, cur, T⟩
+    | none =>
+      -- a panic out of the deferred TearDown() itself is recovered and re-raised like any other
+      ⟨pre ++ [.finishedAnnealing cur T, .explorerTearDown],
+        if panicAt = some .tearDown then .repanicked else .returned, cur, T⟩
+
+/-- what `Anneal()` does once the loop has ended: `annealingFinished()` if it ended normally;
+in any case the deferred `TearDown()` and `handlePanicRecovery` -/
+def conclude (panicAt : Option PanicSite) (T0 : α) : List (Event α) × LoopExit α → Result α
+  | (evs, .done cur T) =>
+    finish panicAt ([.explorerInitialise, .startedAnnealing T0] ++ evs) cur T
+  | (evs, .panicked cur T) =>
+    ⟨[.explorerInitialise, .startedAnnealing T0] ++ evs ++ [.explorerTearDown], .repanicked, cur, T⟩
+  | (evs, .outOfFuel cur T) =>
+    ⟨[.explorerInitialise, .startedAnnealing T0] ++ evs, .outOfFuel, cur, T⟩
+
 /-- `SimpleAnnealer.Anneal()` with budget `N`, entered with `currentIteration = cur0` and
 temperature `T0`, cooling factor `a` -/
 def anneal (N cur0 : Nat) (T0 a : α) (panicAt : Option PanicSite) : Result α :=
   if panicAt = some .initialise then
     -- Initialise() panicked: TearDown is not yet deferred, only handlePanicRecovery runs
     ⟨[.explorerInitialise], .repanicked, cur0, T0⟩
-  else if N = 0 then                                          -- initialDoneValue
-    ⟨[.explorerInitialise, .startedAnnealing T0, .finishedAnnealing cur0 T0, .explorerTearDown],
-      .returned, cur0, T0⟩
   else
-    match loop N a panicAt (N - cur0 + 1) 0 cur0 T0 with
-    | (evs, .done cur T) =>
-      ⟨[.explorerInitialise, .startedAnnealing T0] ++ evs ++ [.finishedAnnealing cur T, .explorerTearDown],
-        .returned, cur, T⟩
-    | (evs, .panicked cur T) =>
-      ⟨[.explorerInitialise, .startedAnnealing T0] ++ evs ++ [.explorerTearDown], .repanicked, cur, T⟩
-    | (evs, .outOfFuel cur T) =>
-      ⟨[.explorerInitialise, .startedAnnealing T0] ++ evs, .outOfFuel, cur, T⟩
+    match observerAt panicAt .startedAnnealing with
+    | some j =>                                               -- annealingStarted
+      ⟨[.explorerInitialise, .startedAnnealing T0, .observerPanic j, .explorerTearDown],
+        .repanicked, cur0, T0⟩
+    | none =>
+      if N = 0 then                                           -- initialDoneValue
+        finish panicAt [.explorerInitialise, .startedAnnealing T0] cur0 T0
+      else
+        conclude panicAt T0 (loop N a panicAt (N - cur0 + 1) 0 cur0 T0)
 
 /-- temperature after `k` cool-downs, by sequential multiplication -/
 def temp (T0 a : α) : Nat → α
@@ -137,9 +229,22 @@ end
 namespace Event
 variable {α : Type}
 
-/-- the events `NotifyObserversOfEvent` hands to observers -/
+/-- the events `Anneal()` itself hands to `NotifyObserversOfEvent`.  (When the explorer's and
+the model's own events are forwarded through the annealer, as `scenario.Runner.wireObservers`
+arranges, observers receive those too, some of them before `startedAnnealing` — the Suppapitnarm
+explorer's `Initialise()` sends one; they are outside this model and the harness's recorders skip
+them.) -/
 def observable : Event α → Bool
   | startedAnnealing _ | startedIteration _ _ | finishedIteration _ _ | finishedAnnealing _ _ => true
+  | _ => false
+
+/-- the marker "delivery of the previous event stopped in observer `j`" -/
+def isObserverPanic : Event α → Bool
+  | observerPanic _ => true
+  | _ => false
+
+def isTearDown : Event α → Bool
+  | explorerTearDown => true
   | _ => false
 
 def isTry : Event α → Bool
@@ -165,12 +270,22 @@ def temperature? : Event α → Option α
 
 end Event
 
+/-- how many of `n` observers are handed an event, given what follows it in the event list:
+all of them, unless the delivery stopped in observer `j` (who was called) -/
+def reach {α : Type} (n : Nat) : List (Event α) → Nat
+  | .observerPanic j :: _ => min (j + 1) n
+  | _ => n
+
 /-- `SynchronousAnnealingEventNotifier.NotifyObserversOfEvent` with `n` observers: every
-observable event goes to observers `0 … n-1` in order.  Events are immutable values here —
-exactly the assumption the Go notifier does not enforce (all observers get `Event` structs
-whose attribute slices share one backing array; finding D21). -/
-def deliveries {α : Type} (n : Nat) (evs : List (Event α)) : List (Nat × Event α) :=
-  (evs.filter Event.observable).flatMap (fun e => (List.range n).map (fun i => (i, e)))
+observable event goes to observers `0 … n-1` in order (`0 … j` if observer `j` panics), one event
+after the other.  Events are immutable values here — exactly the assumption the Go notifier does
+not enforce (all observers get `Event` structs whose attribute slices share one backing array;
+finding D21). -/
+def deliveries {α : Type} (n : Nat) : List (Event α) → List (Nat × Event α)
+  | [] => []
+  | e :: rest =>
+    (if e.observable then (List.range (reach n rest)).map (fun i => (i, e)) else []) ++
+      deliveries n rest
 
 /-- what observer `i` received -/
 def receivedBy {α : Type} (i : Nat) (d : List (Nat × Event α)) : List (Event α) :=
